@@ -676,6 +676,40 @@ func additionsTestedAgainstClose(p *Prog, r *Report, R string, filter func(rel s
 					}
 				}
 			}
+			// a helper that only appends (`pushPending`, "the caller holds the lock"): the test is
+			// owed by every call site instead, under the same conditions
+			if tested == "" {
+				sites, okSites := 0, 0
+				for _, g := range p.Funcs {
+					if !p.moduleFunc(g) {
+						continue
+					}
+					EachInstr(g, func(i2 ssa.Instruction) {
+						c2 := CallOf(i2)
+						if c2 == nil || c2.StaticCallee() != fn {
+							return
+						}
+						if _, isGo := i2.(*ssa.Go); isGo {
+							sites++
+							return
+						}
+						sites++
+						for _, a := range p.GuardsOf(i2.Block()) {
+							s := NormAtom(a.Cond, a.Pol)
+							for f := range flags {
+								if (strings.HasSuffix(s, "."+f) || strings.HasSuffix(s, "."+f+" == false") || strings.HasSuffix(s, "."+f+" == true")) && loadAfterLastUnlock(a.Cond, i2) {
+									okSites++
+									tested = s + " at every call site"
+									return
+								}
+							}
+						}
+					})
+				}
+				if sites == 0 || okSites != sites {
+					tested = ""
+				}
+			}
 			var fl []string
 			for f := range flags {
 				fl = append(fl, f)
